@@ -379,7 +379,7 @@ func TestVC03CBD(t *testing.T) {
 		seen := make(map[int]bool)
 		polys := 0
 		for it := 0; it < 4000; it++ {
-			if len(seen) == nClasses && it >= vlib.N(200, 2000) {
+			if len(seen) == nClasses && it >= vlib.N(300, 2000) {
 				break
 			}
 			seed := make([]byte, 32)
@@ -421,9 +421,11 @@ func TestVC03CBD(t *testing.T) {
 			vlib.Eval(sub)
 			vlib.NonTrivialH(sub, "", vlib.Hash64(seed, []byte{nonce}))
 		}
-		vlib.ClassN(sub, "word-position x bit-group classes seen", int64(len(seen)))
-		vlib.ClassN(sub, "word-position x bit-group classes total", int64(nClasses))
+		if len(seen) == nClasses {
+			vlib.Class(sub, fmt.Sprintf("process covered all %d (word position, bit group) classes", nClasses))
+		}
 		if len(seen) != nClasses {
+			vlib.Note(fmt.Sprintf("CBD_%d: only %d of %d classes generated", eta, len(seen), nClasses))
 			t.Fatalf("SELFTEST-FAIL CBD_%d: only %d of %d (position, bit-group) classes generated", eta, len(seen), nClasses)
 		}
 		vlib.Exhaustive(fmt.Sprintf("CBD_%d: every (coefficient position within the sliced word, 2*eta-bit group value) class", eta), int64(nClasses), fmt.Sprintf("covered by %d PRF streams; each whole polynomial compared with the bit-by-bit definition", polys))
@@ -542,7 +544,7 @@ func TestVC03NTT(t *testing.T) {
 		// (b) boundary and random polynomials: NTT against the defining sums (FIPS 203 eq. 4.12),
 		// InvNTT against its inverse, products against schoolbook multiplication
 		sub = "wb/NTT-vs-definition/" + be
-		rounds := vlib.N(160, 1600)
+		rounds := vlib.N(320, 1600)
 		for r := 0; r < rounds; r++ {
 			sd := uint64(vlib.Seed)*1000003 + uint64(vlib.Shard)*7777 + uint64(r)
 			a := vc03BoundaryPoly(r%8, sd)
@@ -595,7 +597,7 @@ func TestVC03Uniform(t *testing.T) {
 		return
 	}
 	sub := "wb/DeriveUniform"
-	rounds := vlib.N(1500, 6000)
+	rounds := vlib.N(4000, 12000)
 	diffBlocks, fourBlock := 0, 0
 	for r := 0; r < rounds; r++ {
 		var seed [32]byte
